@@ -143,31 +143,61 @@ pub enum Op {
     PwUnwrapWrongPassword,
     UnsealWrongRecipient,
     Expose,
+    UnwrapGood,
+    PwUnwrapGood,
+    PwUnwrapTamperedCost,
+    UnsealGood,
+    UnsealTampered,
 }
 
 pub const OPS_SCHED: [Op; 9] = [Op::Sign, Op::VerifyGood, Op::VerifyForged, Op::Encrypt, Op::DecryptForged, Op::DecryptCallbacks, Op::CloneDrop, Op::PublicKey, Op::WrapPie];
-pub const OPS_HIST: [Op; 13] = [Op::Sign, Op::VerifyGood, Op::VerifyForged, Op::Encrypt, Op::DecryptGood, Op::DecryptForged, Op::CloneDrop, Op::Id, Op::WrapPie, Op::UnwrapBad, Op::PwUnwrapWrongPassword, Op::UnsealWrongRecipient, Op::Expose];
+pub const OPS_HIST: [Op; 18] = [Op::Sign, Op::VerifyGood, Op::VerifyForged, Op::Encrypt, Op::DecryptGood, Op::DecryptForged, Op::CloneDrop, Op::Id, Op::WrapPie, Op::UnwrapBad, Op::PwUnwrapWrongPassword, Op::UnsealWrongRecipient, Op::Expose, Op::UnwrapGood, Op::PwUnwrapGood, Op::PwUnwrapTamperedCost, Op::UnsealGood, Op::UnsealTampered];
+/// first uses of a key object that has never been used (cold start), raced pairwise
+pub const OPS_COLD: [Op; 11] = [Op::Sign, Op::VerifyGood, Op::VerifyForged, Op::Encrypt, Op::DecryptGood, Op::CloneDrop, Op::PublicKey, Op::Id, Op::WrapPie, Op::UnsealGood, Op::Expose];
 
 pub struct Shared<V: Full> {
     local: LocalKey<V>,
     secret: SecretKey<V>,
     public: PublicKey<V>,
     pke_secret: paseto_core::key::Key<V, paseto_core::version::PkeSecret>,
+    fx: Arc<Fx>,
+}
+impl<V: Full> std::ops::Deref for Shared<V> {
+    type Target = Fx;
+    fn deref(&self) -> &Fx {
+        &self.fx
+    }
+}
+
+/// the fixed inputs of the operations (made once per backend with key objects of their own)
+pub struct Fx {
+    local_b: Vec<u8>,
+    secret_b: Vec<u8>,
+    public_b: Vec<u8>,
+    pke_secret_b: Vec<u8>,
     good_signed: String,
     good_encrypted: String,
     forged_signed: String,
     forged_encrypted: String,
+    good_pie: String,
     bad_pie: String,
     pw_blob: String,
+    pw_tampered_cost: String,
+    own_seal: String,
+    tampered_seal: String,
     foreign_seal: String,
 }
 
-fn make_shared<V: Full>() -> Shared<V> {
+fn fixtures<V: Full>() -> Arc<Fx> {
+    static CACHE: Mutex<Vec<(&'static str, Arc<Fx>)>> = Mutex::new(Vec::new());
+    if let Some((_, f)) = CACHE.lock().unwrap().iter().find(|(n, _)| *n == V::NAME) {
+        return f.clone();
+    }
     let ks = keys::keyset::<V>(false, 0);
     let local = keys::local::<V>(&ks.locals[2].bytes);
     let secret = keys::secret::<V>(&ks.secrets[0].bytes);
-    let public = secret.public_key();
-    let (r, _) = rng::with(Mode::Counter(0xc17), &[], || {
+    let public_b = keys::key_bytes(&secret.public_key());
+    let (fx, _) = rng::with(Mode::Counter(0xc17), &[], || {
         let good_signed = ops::sign::<V>(&secret, b"OK signed", None, b"", &Nonce::Lib).unwrap();
         let good_encrypted = ops::enc::<V>(&local, b"OK encrypted", None, b"", &Nonce::Lib).unwrap();
         let flip_last = |s: &str| {
@@ -178,18 +208,60 @@ fn make_shared<V: Full>() -> Shared<V> {
         };
         let forged_signed = flip_last(&good_signed);
         let forged_encrypted = flip_last(&good_encrypted);
-        let pie = pk::pie_wrap::<V, Local>(&ks.locals[0].bytes, &ks.locals[2].bytes).unwrap();
-        let (h, mut b) = pk::split(&pie).unwrap();
+        let good_pie = pk::pie_wrap::<V, Local>(&ks.locals[0].bytes, &ks.locals[2].bytes).unwrap();
+        let (h, mut b) = pk::split(&good_pie).unwrap();
         b[0] ^= 1;
         let bad_pie = pk::join(&h, &b);
         let pw_blob = pk::pw_wrap::<V, Local>(&ks.locals[0].bytes, b"right", Some(&backends::params_for::<V>(backends::Cost::Min))).unwrap();
+        // the same blob with its cost field changed (iterations 1 -> 2, Argon2 passes 1 -> 2): same salt, same password
+        let (h, mut b) = pk::split(&pw_blob).unwrap();
+        if V::VER == 1 || V::VER == 3 {
+            b[35] = 2;
+        } else {
+            b[27] = 2;
+        }
+        let pw_tampered_cost = pk::join(&h, &b);
+        let own_seal = pk::seal::<V>(&ks.locals[0].bytes, &ks.pke[0].1.bytes).unwrap();
+        let (h, mut b) = pk::split(&own_seal).unwrap();
+        let n = b.len();
+        b[n - 1] ^= 1;
+        let tampered_seal = pk::join(&h, &b);
         // sealed to another recipient
         let other = &ks.pke[ks.pke.len() - 1];
         let foreign_seal = pk::seal::<V>(&ks.locals[0].bytes, &other.1.bytes).unwrap();
-        (good_signed, good_encrypted, forged_signed, forged_encrypted, bad_pie, pw_blob, foreign_seal)
+        Fx {
+            local_b: ks.locals[2].bytes.clone(),
+            secret_b: ks.secrets[0].bytes.clone(),
+            public_b: public_b.clone(),
+            pke_secret_b: ks.pke[0].0.bytes.clone(),
+            good_signed,
+            good_encrypted,
+            forged_signed,
+            forged_encrypted,
+            good_pie,
+            bad_pie,
+            pw_blob,
+            pw_tampered_cost,
+            own_seal,
+            tampered_seal,
+            foreign_seal,
+        }
     });
-    let pke_secret = keys::key::<V, paseto_core::version::PkeSecret>(&ks.pke[0].0.bytes);
-    Shared { local, secret, public, pke_secret, good_signed: r.0, good_encrypted: r.1, forged_signed: r.2, forged_encrypted: r.3, bad_pie: r.4, pw_blob: r.5, foreign_seal: r.6 }
+    let fx = Arc::new(fx);
+    CACHE.lock().unwrap().push((V::NAME, fx.clone()));
+    fx
+}
+
+/// key objects parsed from bytes and never used before (every call gives cold keys)
+fn make_shared<V: Full>() -> Shared<V> {
+    let fx = fixtures::<V>();
+    Shared {
+        local: keys::local::<V>(&fx.local_b),
+        secret: keys::secret::<V>(&fx.secret_b),
+        public: keys::public::<V>(&fx.public_b),
+        pke_secret: keys::key::<V, paseto_core::version::PkeSecret>(&fx.pke_secret_b),
+        fx,
+    }
 }
 
 /// Result of one operation, in a form that can be compared with the sequential oracle.
@@ -267,13 +339,24 @@ fn run_op<V: Full>(op: Op, k: &Shared<V>) -> Res {
                 }
                 Err(x) => Res::Exact(e(x)),
             },
-            Op::UnwrapBad => Res::Exact(pk::pie_unwrap::<V, Local>(&k.bad_pie, &keys::key_bytes(&k.local)).map(hex::encode).unwrap_or_else(e)),
+            Op::UnwrapBad => Res::Exact(k.bad_pie.parse::<paseto_core::paserk::PieWrappedKey<V, Local>>().and_then(|p| p.unwrap(&k.local)).map(|x| hex::encode(keys::key_bytes(&x))).unwrap_or_else(e)),
             Op::PwUnwrapWrongPassword => Res::Exact(pk::pw_unwrap::<V, Local>(&k.pw_blob, b"wrong").map(hex::encode).unwrap_or_else(e)),
             Op::UnsealWrongRecipient => {
                 let s: paseto_core::paserk::SealedKey<V> = k.foreign_seal.parse().unwrap();
                 Res::Exact(s.unseal(&k.pke_secret).map(|x| hex::encode(keys::key_bytes(&x))).unwrap_or_else(e))
             }
             Op::Expose => Res::Exact(format!("{}|{}", k.local.expose_key(), k.secret.expose_key())),
+            Op::UnwrapGood => Res::Exact(k.good_pie.parse::<paseto_core::paserk::PieWrappedKey<V, Local>>().and_then(|p| p.unwrap(&k.local)).map(|x| hex::encode(keys::key_bytes(&x))).unwrap_or_else(e)),
+            Op::PwUnwrapGood => Res::Exact(pk::pw_unwrap::<V, Local>(&k.pw_blob, b"right").map(hex::encode).unwrap_or_else(e)),
+            Op::PwUnwrapTamperedCost => Res::Exact(pk::pw_unwrap::<V, Local>(&k.pw_tampered_cost, b"right").map(hex::encode).unwrap_or_else(e)),
+            Op::UnsealGood => {
+                let s: paseto_core::paserk::SealedKey<V> = k.own_seal.parse().unwrap();
+                Res::Exact(s.unseal(&k.pke_secret).map(|x| hex::encode(keys::key_bytes(&x))).unwrap_or_else(e))
+            }
+            Op::UnsealTampered => match k.tampered_seal.parse::<paseto_core::paserk::SealedKey<V>>() {
+                Ok(s) => Res::Exact(s.unseal(&k.pke_secret).map(|x| hex::encode(keys::key_bytes(&x))).unwrap_or_else(e)),
+                Err(x) => Res::Exact(e(x)),
+            },
         }
     });
     match r {
@@ -457,6 +540,18 @@ fn schedules<V: Full>(prop: &mut Property, ctx: &Ctx) {
 
 // ------------------------------------------------------------------------------------------- histories
 
+/// what an operation on the fixed inputs must return whatever happened before (where that is a fixed string)
+fn meaning<V: Full>(op: Op) -> Option<String> {
+    let ks = keys::keyset::<V>(false, 0);
+    let wrapped = hex::encode(&ks.locals[0].bytes);
+    match op {
+        Op::VerifyGood => Some(hex::encode(b"OK signed")),
+        Op::DecryptGood => Some(hex::encode(b"OK encrypted")),
+        Op::UnwrapGood | Op::PwUnwrapGood | Op::UnsealGood => Some(wrapped),
+        _ => None,
+    }
+}
+
 fn probe<V: Full>(k: &Shared<V>) -> String {
     let r = subject(|| {
         let t = ops::enc::<V>(&k.local, b"probe", Some(b"f"), b"", &Nonce::Fixed(vec![3; V::nonce_len()])).map_err(|e| payload::err_kind(&e));
@@ -476,7 +571,7 @@ fn histories<V: Full>(prop: &mut Property, ctx: &Ctx) {
         Sub::new(
             format!("{name}/histories"),
             opsn,
-            format!("BFS over all operation histories of depth <= {depth} on one key over {:?} (failing operations: forged tokens, corrupted wrapped key, wrong password, wrong recipient); after every prefix the probe set (fixed-nonce seal, decrypt and verify of fixed tokens, deterministic signature, ids, exposed bytes) equals the probe of a fresh copy; every operation's result equals its result on a fresh copy", OPS_HIST),
+            format!("BFS over all operation histories of depth <= {depth} on one key over {:?} (failing operations: forged tokens, corrupted wrapped key, wrong password, right password on a blob whose cost field was changed, wrong recipient, tampered sealed key), run one history at a time so that process-wide state left by one operation is seen by the next; after every prefix the probe set (fixed-nonce seal, decrypt and verify of fixed tokens, deterministic signature, ids, exposed bytes) equals the probe of a fresh copy; every operation's result equals its result on a fresh copy", OPS_HIST),
             move |idx, describe| {
                 let mut o = Outcome::new();
                 o.evals = 0;
@@ -487,11 +582,25 @@ fn histories<V: Full>(prop: &mut Property, ctx: &Ctx) {
                 if describe {
                     o.sample = Some(json!({"backend": name, "first_operation": format!("{first:?}"), "depth": depth}));
                 }
-                // reference result of every single op on a fresh key
+                // reference result of every single op on a fresh key, taken before any history is run and held
+                // against what the operation must mean (a process-wide cache poisoned by an earlier history
+                // would otherwise poison the reference in the same way)
+                let refs: Vec<Res> = OPS_HIST
+                    .iter()
+                    .map(|op| {
+                        let f = make_shared::<V>();
+                        rng::reset(Mode::Counter(0x9000), &[], false);
+                        run_op::<V>(*op, &f)
+                    })
+                    .collect();
+                let meanings: Vec<Option<String>> = OPS_HIST.iter().map(|op| meaning::<V>(*op)).collect();
                 let reference = |op: Op| {
-                    let f = make_shared::<V>();
-                    rng::reset(Mode::Counter(0x9000), &[], false);
-                    run_op::<V>(op, &f)
+                    let i = OPS_HIST.iter().position(|x| *x == op).unwrap();
+                    let want = refs[i].clone();
+                    match (meanings[i].clone(), &want) {
+                        (Some(m), Res::Exact(x)) if *x != m => Res::Exact(m),
+                        _ => want,
+                    }
                 };
                 let mut frontier: Vec<Vec<Op>> = vec![vec![first]];
                 for _d in 0..depth {
@@ -541,6 +650,7 @@ fn histories<V: Full>(prop: &mut Property, ctx: &Ctx) {
                 o
             },
         )
+        .serial()
         .witness(&["probe-equals-fresh"]),
     );
     // clone / drop orders
@@ -645,6 +755,90 @@ fn stress<V: Full>(prop: &mut Property, ctx: &Ctx) {
     }).serial().witness(&["stress-clean"]));
 }
 
+
+// ------------------------------------------------------------------------------------------- cold start (free-running first use)
+
+/// Every pair of operations as the *first* uses of key objects that were parsed a moment ago and never used,
+/// released together from a spinning start line. A cooperative scheduler cannot preempt inside an operation, so
+/// state that a key builds lazily on first use (a cache cell filled behind `&self`) is only raced by threads that
+/// really run at once. Exhaustive over operation pairs and thread counts, sampling over the hardware's interleavings.
+fn cold_start<V: Full>(prop: &mut Property, ctx: &Ctx) {
+    use std::sync::atomic::{AtomicUsize, Ordering};
+    let name = V::NAME;
+    let reps: usize = ctx.tier.pick(if V::VER == 1 || V::NAME == "v3" { 6 } else { 12 }, 200);
+    let n = OPS_COLD.len();
+    let pairs: Vec<(Op, Op)> = (0..n).flat_map(|i| (i..n).map(move |j| (OPS_COLD[i], OPS_COLD[j]))).collect();
+    prop.subs.push(
+        Sub::new(
+            format!("{name}/cold-start-pairs"),
+            pairs.len() as u64,
+            format!("every unordered pair (a, b), a = b included, over {:?} x thread counts {{2, 4}} x {reps} repetitions: fresh key objects (parsed, never used), threads alternate a, b, ... and are released together from a spinning start line; every result equals the result of the same first use on a fresh key alone (deterministic results byte-equal, randomised ones verify), nothing panics. ADVISORY for the interleavings (free-running), exhaustive over the pairs", OPS_COLD),
+            move |idx, describe| {
+                let (a, b) = pairs[idx as usize];
+                let mut o = Outcome::new();
+                o.evals = 0;
+                if describe {
+                    o.sample = Some(json!({"backend": name, "pair": format!("{a:?} || {b:?}"), "repetitions": reps}));
+                }
+                let reference = |op: Op| {
+                    let f = make_shared::<V>();
+                    rng::reset(Mode::Counter(0xc01d), &[], false);
+                    let r = run_op::<V>(op, &f);
+                    rng::reset(Mode::Counter(0x5eed), &[], false);
+                    r
+                };
+                let want = [reference(a), reference(b)];
+                let mut bad: Vec<String> = Vec::new();
+                for threads in [2usize, 4] {
+                    for rep in 0..reps {
+                        let k = Arc::new(make_shared::<V>());
+                        let line = Arc::new(AtomicUsize::new(0));
+                        let hs: Vec<_> = (0..threads)
+                            .map(|t| {
+                                let (k, line) = (k.clone(), line.clone());
+                                let op = if t % 2 == 0 { a } else { b };
+                                std::thread::spawn(move || {
+                                    crate::engine::install_panic_hook_thread();
+                                    rng::reset(Mode::Counter(0xc01d), &[], false);
+                                    line.fetch_add(1, Ordering::SeqCst);
+                                    while line.load(Ordering::SeqCst) < threads {
+                                        std::hint::spin_loop();
+                                    }
+                                    let r = run_op::<V>(op, &k);
+                                    rng::reset(Mode::Counter(0x5eed), &[], false);
+                                    r
+                                })
+                            })
+                            .collect();
+                        for (t, h) in hs.into_iter().enumerate() {
+                            o.evals += 1;
+                            let got = h.join().unwrap_or_else(|_| Res::Panic("thread died".into()));
+                            let w = &want[t % 2];
+                            let same = match (&got, w) {
+                                (Res::Exact(x), Res::Exact(y)) => x == y,
+                                (Res::Valid(true), Res::Valid(true)) => true,
+                                _ => false,
+                            };
+                            if !same && bad.len() < 3 {
+                                bad.push(format!("{threads} threads, repetition {rep}, thread {t} ({:?}): got {} but alone on a fresh key {}", if t % 2 == 0 { a } else { b }, format!("{got:?}").chars().take(200).collect::<String>(), format!("{w:?}").chars().take(200).collect::<String>()));
+                            }
+                        }
+                    }
+                }
+                o.nontrivial = o.evals;
+                if bad.is_empty() {
+                    o.class("first-uses-agree");
+                } else {
+                    o.violate_env(format!("{name}/cold-start/{a:?}-{b:?}"), format!("concurrent first uses of a fresh key gave a result that sequential use cannot produce: {}", bad[0]), json!({"all": bad}));
+                }
+                o
+            },
+        )
+        .serial()
+        .witness(&["first-uses-agree"]),
+    );
+}
+
 /// harness-validity guard: shared mutable state in the repo crates would mean our scheduling points no
 /// longer cover every interleaving. Reported in evidence only; never a verdict.
 fn source_scan() -> serde_json::Value {
@@ -687,6 +881,7 @@ pub fn build(ctx: &Ctx) -> Property {
             schedules::<$V>(&mut p, ctx);
             histories::<$V>(&mut p, ctx);
             stress::<$V>(&mut p, ctx);
+            cold_start::<$V>(&mut p, ctx);
         };
     }
     all!(backends::V1);
